@@ -21,6 +21,7 @@ CFG = {
                 "del_cells": 1.5, "rename_cells": 0.4, "add_bases": 2.5, "remove_bases": 3.0, "set_ref": 2.0,
                 "del_ref": 0.8, "set_mref": 0.3, "eval": 2.0, "evalall": 0.4, "bad": 0.5},
     "min_ops": 10, "max_ops": 24,
+    "enum_always": ("del_space", "remove_bases", "del_cells", "del_ref", "rename_cells"),   # every edit that takes a definer away
 }
 
 RULE = ("random histories (10-24 ops) over up to 4 top-level spaces and nested children: defining, redefining, "
